@@ -176,6 +176,7 @@ Proof.
               pose proof (const_text_first n0 neg run v [33%N] CT) as CF. destruct neg; [rewrite CF in SM; discriminate SM|]. destruct CF as [CF _]. rewrite CF in LF. discriminate LF.
             * (* - sgn(..) *) cbn [pr0 Expr.size] in *. destruct (IH c2 ltac:(lia) P None) as (c' & Rc & Pc). cbn [need Ph] in Pc.
               exists (Un UNeg (Un USgn c')). split; [apply rt_un, rt_un; exact Rc|]. cbn [ptoks]. apply PU_neg, PF_atom. apply PA_sgn. exact Pc.
+            * (* - abs(..): not in the class *) cbn [pr0] in P. contradiction.
           + destruct (bk_eqb k2 KPow) eqn:KP.
             * (* - b^r with b not a literal *) destruct k2; try discriminate KP. cbn [pr0 Expr.size] in *. destruct P as [Pl Pr].
               destruct (pow_phrase l2 r2 (IH l2 ltac:(lia) Pl) (IH r2 ltac:(lia) Pr)) as (e' & R & _ & PF).
@@ -216,6 +217,7 @@ Proof.
     + (* sgn *) cbn [pr0] in P. intros parent. destruct (IH c ltac:(lia) P None) as (c' & Rc & Pc). cbn [need Ph] in Pc.
       exists (Un USgn c'). split; [now apply rt_un|]. apply (Ph_up LAtom); [destruct parent as [[[] []]|]; reflexivity|].
       cbn [ptoks Ph]. apply PA_sgn. exact Pc.
+    + (* abs: not in the class *) cbn [pr0] in P. contradiction.
   - cbn [Expr.size] in SZ. destruct (bk_eqb k KPow) eqn:KP.
     + (* power *) destruct k; try discriminate KP. destruct P as [Pl Pr]. intros parent.
       destruct (pow_phrase l r (IH l ltac:(lia) Pl) (IH r ltac:(lia) Pr)) as (e' & R & PE & _).
